@@ -9,27 +9,23 @@ measurement-listing / SHOW endpoints, every stored file the executed statement r
 header); no accepted statement reads another database's files through table functions, replacement
 scans, quoting, backslashes, dollar quotes, comments or placeholder-like text.
 
-THE FULL STATEMENT IS FALSE OF THE CURRENT SOURCE (the harness reads canary rows of an unauthorised
-database through the real handlers + the real sandboxed DuckDB in 11 lexical / structural classes, see
-props/C14.py).  Kept visible:
+STATUS after the round-2 repairs (/repo 02701ef … 64dff5c + 12df811): the 20 bypass classes the search harness
+had confirmed on the real handlers + the real sandboxed DuckDB are repaired; their monitors stay armed and are
+silent. This file states the property compositionally:
 
     theorem C14_full (s hdr) : accepted s hdr → filesRead (execute s hdr) ⊆ dirs (refsChecked s hdr)
 
-What is proved instead, compositionally:
+is `C14_partial` below, whose hypotheses are exactly the parts that are NOT arc code:
+(D) DuckDB's read set, (A) agreement of the validator's lexing with DuckDB's on the class `inK`, and the
+regex-semantic side conditions of (C). Everything that IS arc code is proved or regenerated:
 
-(B) `C14_validated`        — over DuckDB's token list: an accepted statement is a single statement, has no
-                             denylisted file-reading function name (bare or quoted) followed by `(`, and no
-                             string literal / non-name quoted identifier in table position.
-(C) `C14_rewrite_subset_checked` (+ `_hdr`) — for an ABSTRACT regex matcher, normaliser, splice and case
-                             folding: every (database, measurement) the rewrite turns into a read_parquet
-                             path is a permission-checked pair (same database, same measurement up to the
-                             letter case the de-duplication key folds) or carries the inert sentinel —
-                             under the explicit side conditions the abstract argument needs, each of which
-                             is either a fact about the regex literals (captures contain no '.') or one of
-                             the places where the real code breaks the inclusion; for each such place a
-                             witness theorem exhibits the break (`*_witness`).
-(D) DuckDB's read set is a HYPOTHESIS (`hD`) of `C14_partial`, never an axiom; so is the lexical
-    agreement (A) of validator and DuckDB on the class `inK` (C15's subject).
+(B) `C14_validated`, `C14_denylist_complete` — over DuckDB's token list (denylist regenerated).
+(C) `C14_rewrite_subset_checked` (+ `_hdr`) — for an ABSTRACT regex matcher, normaliser, splice and case folding
+    every (database, measurement) the rewrite turns into a read_parquet path IS one of the permission-checked
+    pairs (or the inert sentinel). Since 02701ef (case-exact `seen` key) this is plain membership.
+(R) `C14_repairs_in_place` — the structural facts of every repair, regenerated from the source on each run;
+    the historical witnesses are kept as theorems about the OLD parameter value (`…P true` / `cacheKeyPreFix`)
+    or as `_fixed` theorems evaluating the byte-level transcription of the CURRENT masker / validator.
 -/
 namespace Arc.C14
 
@@ -85,16 +81,19 @@ theorem extracted_of_cand (W : World) (n : Norm) (c : Cand) (hc : c ∈ candidat
   · cases h
   · exact h
 
-/-- the two shapes of a candidate -/
+/-- the `seen` key of bare references is case-exact (regenerated fact; breaks if the source regresses) -/
+theorem seenKey_exact : Arc.Generated.C14.seenKeyFoldsCase = false := rfl
+
+/-- the shape of a candidate: its key is `db.m` of its own reference -/
 theorem cand_shape (W : World) (n : Norm) (k : Cand) (hk : k ∈ candidates W n) :
-    k.key = k.ref.db ++ dot :: k.ref.m ∨ (k.ref.db = defaultDB ∧ k.key = defaultDB ++ dot :: W.lower k.ref.m) := by
+    k.key = k.ref.db ++ dot :: k.ref.m := by
   unfold candidates at hk
   simp only [List.mem_append, List.mem_map, List.mem_filter] at hk
   rcases hk with ((⟨m, _, rfl⟩ | ⟨m, _, rfl⟩) | ⟨m, _, rfl⟩) | ⟨m, _, rfl⟩
-  · left; rfl
-  · left; rfl
-  · right; exact ⟨rfl, rfl⟩
-  · right; exact ⟨rfl, rfl⟩
+  · rfl
+  · rfl
+  · simp [simpleCand, simpleCandP, seenKey_exact]
+  · simp [simpleCand, simpleCandP, seenKey_exact]
 
 theorem validName_nodot (o : Str) (h : validName o = true) : dot ∉ o := by
   cases o with
@@ -121,62 +120,46 @@ theorem resolveV_cases (I : Idents) (g : Str) (hg : dot ∉ g) :
     · right; simp only [hv, if_true]; exact ⟨trivial, validName_nodot o hv⟩
     · left; simp [hv]
 
-structure LowerLaws (W : World) : Prop where
-  idem : ∀ s, W.lower (W.lower s) = W.lower s
-  nodot : ∀ s, dot ∉ s → dot ∉ W.lower s
-
 /-- the regex capture classes (`[a-zA-Z0-9_]+`, `[a-zA-Z_][a-zA-Z0-9_]*`, `\w+`) contain no '.' -/
 def CapNoDot (W : World) : Prop := ∀ p t m, m ∈ W.findAll p t → dot ∉ m.g1 ∧ dot ∉ m.g2
 
-/-- a reference matched by a dotted pattern on the permission-side text is covered -/
-theorem dotted_covered (W : World) (L : LowerLaws W) (n : Norm) (m : Match)
+/-- a candidate whose key is `a.b` with dot-free a, b yields exactly the extracted reference ⟨a, b⟩ -/
+theorem covered_of_cand (W : World) (n : Norm) (c : Cand) (hc : c ∈ candidates W n) (a b : Str)
+    (hkey : c.key = a ++ dot :: b) (da : dot ∉ a) (db : dot ∉ b) : (⟨a, b⟩ : Ref) ∈ refsExtracted W n := by
+  obtain ⟨k, hk, hkk, hkr⟩ := extracted_of_cand W n c hc
+  have hs := cand_shape W n k hk
+  rw [hkk, hkey] at hs
+  obtain ⟨e1, e2⟩ := key_inj da db hs
+  have : k.ref = ⟨a, b⟩ := by cases hr : k.ref with | mk d m => simp [hr] at e1 e2; simp [e1, e2]
+  rw [← this]; exact hkr
+
+/-- a reference matched by a dotted pattern on the permission-side text is extracted -/
+theorem dotted_covered (W : World) (n : Norm) (m : Match)
     (hm : m ∈ W.findAll .dbTable n.text ∨ m ∈ W.findAll .joinDbTable n.text)
     (h1 : resolveV n.idents m.g1 = resolveRaw n.idents m.g1) (d1 : dot ∉ resolveV n.idents m.g1)
     (h2 : resolveV n.idents m.g2 = resolveRaw n.idents m.g2) (d2 : dot ∉ resolveV n.idents m.g2) :
-    ∃ k ∈ refsExtracted W n, k.db = resolveV n.idents m.g1 ∧ W.lower k.m = W.lower (resolveV n.idents m.g2) := by
+    (⟨resolveV n.idents m.g1, resolveV n.idents m.g2⟩ : Ref) ∈ refsExtracted W n := by
   have hc : dottedCand n.idents m ∈ candidates W n := by
     unfold candidates
     simp only [List.mem_append, List.mem_map]
     rcases hm with h | h
     · left; left; left; exact ⟨m, h, rfl⟩
     · left; left; right; exact ⟨m, h, rfl⟩
-  obtain ⟨k, hk, hkey, hkr⟩ := extracted_of_cand W n _ hc
-  have hkey' : k.key = resolveV n.idents m.g1 ++ dot :: resolveV n.idents m.g2 := by
-    rw [hkey, h1, h2]; rfl
-  refine ⟨k.ref, hkr, ?_⟩
-  rcases cand_shape W n k hk with hs | ⟨hdb, hs⟩
-  · rw [hs] at hkey'
-    obtain ⟨e1, e2⟩ := key_inj d1 d2 hkey'.symm
-    exact ⟨e1.symm, by rw [e2]⟩
-  · rw [hs] at hkey'
-    obtain ⟨e1, e2⟩ := key_inj d1 d2 hkey'.symm
-    refine ⟨by rw [hdb, e1], ?_⟩
-    rw [e2, L.idem]
+  exact covered_of_cand W n _ hc _ _ (by rw [h1, h2]; rfl) d1 d2
 
-/-- a reference matched by a simple pattern on the permission-side text and not skipped there is covered -/
-theorem simple_covered (W : World) (L : LowerLaws W) (n : Norm) (m : Match)
+/-- a reference matched by a simple pattern on the permission-side text and not skipped there is extracted -/
+theorem simple_covered (W : World) (n : Norm) (m : Match)
     (hm : m ∈ W.findAll .simple n.text ∨ m ∈ W.findAll .joinSimple n.text)
     (hns : extractSkips W (cteNames W n.text) n.idents m = false)
     (h1 : resolveV n.idents m.g1 = resolveRaw n.idents m.g1) (d1 : dot ∉ resolveV n.idents m.g1) :
-    ∃ k ∈ refsExtracted W n, k.db = defaultDB ∧ W.lower k.m = W.lower (resolveV n.idents m.g1) := by
+    (⟨defaultDB, resolveV n.idents m.g1⟩ : Ref) ∈ refsExtracted W n := by
   have hc : simpleCand W n.idents m ∈ candidates W n := by
     unfold candidates
     simp only [List.mem_append, List.mem_map, List.mem_filter]
     rcases hm with h | h
     · left; right; exact ⟨m, ⟨h, by simp [hns]⟩, rfl⟩
     · right; exact ⟨m, ⟨h, by simp [hns]⟩, rfl⟩
-  obtain ⟨k, hk, hkey, hkr⟩ := extracted_of_cand W n _ hc
-  have hkey' : k.key = defaultDB ++ dot :: W.lower (resolveV n.idents m.g1) := by
-    rw [hkey, h1]; rfl
-  have dl : dot ∉ W.lower (resolveV n.idents m.g1) := L.nodot _ d1
-  refine ⟨k.ref, hkr, ?_⟩
-  rcases cand_shape W n k hk with hs | ⟨hdb, hs⟩
-  · rw [hs] at hkey'
-    obtain ⟨e1, e2⟩ := key_inj defaultDB_nodot dl hkey'.symm
-    exact ⟨e1.symm, by rw [← e2, L.idem]⟩
-  · rw [hs] at hkey'
-    obtain ⟨_, e2⟩ := key_inj defaultDB_nodot dl hkey'.symm
-    exact ⟨hdb, e2.symm⟩
+  exact covered_of_cand W n _ hc _ _ (by simp [simpleCand, simpleCandP, seenKey_exact, h1]) defaultDB_nodot d1
 
 theorem dotAt_imp (rest : Str) (h : dotAt rest = true) : dotOrCallAtR rest = true := by
   cases rest with
@@ -217,26 +200,28 @@ structure StableNoHdr (W : World) (n : Norm) : Prop where
     ∃ m0 ∈ W.findAll .joinSimple n.text, m0.g1 = m.g1 ∧
       (callAtX m0.rest = true → dotOrCallAtR m.rest = true) ∧ (dotAt m0.rest = true → dotOrCallAtR m.rest = true)
 
+/-- the header path no longer gates CTE-name extraction (regenerated fact, 04fa395) -/
+theorem cteNamesHdr_eq (W : World) (t : Str) : cteNamesHdr W t = cteNames W t := by
+  simp [cteNamesHdr, cteNamesHdrP, show Arc.Generated.C14.headerCteGated = false from rfl]
+
 /-- side conditions of the header (slow) path -/
 structure StableHdr (W : World) (n : Norm) : Prop where
-  gate : cteNamesHdr W n.text = cteNames W n.text
   simple : ∀ m ∈ W.findAll .simple n.text, callAtX m.rest = true → dotOrCallAtR m.rest = true
   joinSimple : ∀ m ∈ W.findAll .joinSimple (textsHdr W n).t3,
     ∃ m0 ∈ W.findAll .joinSimple n.text, m0.g1 = m.g1 ∧
       (callAtX m0.rest = true → dotOrCallAtR m.rest = true) ∧ (dotAt m0.rest = true → dotOrCallAtR m.rest = true)
 
-/-- "r is covered by the checked set": same database, same measurement up to the case folding of the
-de-duplication key — or r names the inert sentinel directory -/
-def Covered (W : World) (checked : List Ref) (r : Ref) : Prop :=
-  r.db = sentinel ∨ r.m = sentinel ∨ ∃ c ∈ checked, c.db = r.db ∧ W.lower c.m = W.lower r.m
+/-- "r is covered by the checked set": r IS one of the checked pairs — or names the inert sentinel directory -/
+def Covered (checked : List Ref) (r : Ref) : Prop :=
+  r.db = sentinel ∨ r.m = sentinel ∨ r ∈ checked
 
-theorem rewNoHdr_covered (W : World) (L : LowerLaws W) (hcap : CapNoDot W) (n : Norm) (hst : StableNoHdr W n) :
-    ∀ r ∈ rewNoHdr W n, Covered W (refsExtracted W n) r := by
+theorem rewNoHdr_covered (W : World) (hcap : CapNoDot W) (n : Norm) (hst : StableNoHdr W n) :
+    ∀ r ∈ rewNoHdr W n, Covered (refsExtracted W n) r := by
   intro r hr
   unfold rewNoHdr at hr
   simp only [List.mem_append, List.mem_map, List.mem_filter] at hr
   have dotted : ∀ m0 : Match, (m0 ∈ W.findAll .dbTable n.text ∨ m0 ∈ W.findAll .joinDbTable n.text) →
-      Covered W (refsExtracted W n) (dottedRef n.idents m0) := by
+      Covered (refsExtracted W n) (dottedRef n.idents m0) := by
     intro m0 hm0
     have hc := hm0.elim (hcap _ _ _) (hcap _ _ _)
     rcases resolveV_cases n.idents m0.g1 hc.1 with s1 | ⟨e1, d1⟩
@@ -244,13 +229,12 @@ theorem rewNoHdr_covered (W : World) (L : LowerLaws W) (hcap : CapNoDot W) (n : 
     rcases resolveV_cases n.idents m0.g2 hc.2 with s2 | ⟨e2, d2⟩
     · right; left; exact s2
     right; right
-    obtain ⟨k, hk, h1, h2⟩ := dotted_covered W L n m0 hm0 e1 d1 e2 d2
-    exact ⟨k, hk, h1, h2⟩
+    exact dotted_covered W n m0 hm0 e1 d1 e2 d2
   have simple : ∀ m m0 : Match, (m0 ∈ W.findAll .simple n.text ∨ m0 ∈ W.findAll .joinSimple n.text) →
       m0.g1 = m.g1 → (callAtX m0.rest = true → dotOrCallAtR m.rest = true) →
       (dotAt m0.rest = true → dotOrCallAtR m.rest = true) →
       rewriteKeeps W (cteNames W n.text) n.idents m = true →
-      Covered W (refsExtracted W n) ⟨defaultDB, resolveV n.idents m.g1⟩ := by
+      Covered (refsExtracted W n) ⟨defaultDB, resolveV n.idents m.g1⟩ := by
     intro m m0 hm0 hg hl hd hk
     have hc := hm0.elim (hcap _ _ _) (hcap _ _ _)
     rw [hg] at hc
@@ -258,8 +242,8 @@ theorem rewNoHdr_covered (W : World) (L : LowerLaws W) (hcap : CapNoDot W) (n : 
     · right; left; exact s1
     right; right
     have hns := keeps_not_skipped W _ n.idents m m0 hg e1 hl hd hk
-    obtain ⟨k, hk', h1, h2⟩ := simple_covered W L n m0 hm0 hns (by rw [hg]; exact e1) (by rw [hg]; exact d1)
-    exact ⟨k, hk', h1, by rw [h2, hg]⟩
+    have := simple_covered W n m0 hm0 hns (by rw [hg]; exact e1) (by rw [hg]; exact d1)
+    rw [hg] at this; exact this
   rcases hr with ((⟨m, hm, rfl⟩ | ⟨m, hm, rfl⟩) | ⟨m, ⟨hm, hk⟩, rfl⟩) | ⟨m, ⟨hm, hk⟩, rfl⟩
   · exact dotted m (Or.inl hm)
   · obtain ⟨m0, hm0, g1, g2⟩ := hst.joinDb m hm
@@ -276,16 +260,16 @@ theorem applyHeader_mem (hdr : Str) (hh : hdr ≠ []) (rs : List Ref) (k : Ref) 
   simp only [hh, if_false, List.mem_map]
   exact ⟨k, hk, by simp [hd]⟩
 
-theorem rewHdrSlow_covered (W : World) (L : LowerLaws W) (hcap : CapNoDot W) (n : Norm) (hdr : Str) (hh : hdr ≠ [])
-    (hst : StableHdr W n) : ∀ r ∈ rewHdrSlow W n hdr, Covered W (applyHeader hdr (refsExtracted W n)) r := by
+theorem rewHdrSlow_covered (W : World) (hcap : CapNoDot W) (n : Norm) (hdr : Str) (hh : hdr ≠ [])
+    (hst : StableHdr W n) : ∀ r ∈ rewHdrSlow W n hdr, Covered (applyHeader hdr (refsExtracted W n)) r := by
   intro r hr
   unfold rewHdrSlow at hr
-  simp only [List.mem_append, List.mem_map, List.mem_filter, hst.gate] at hr
+  simp only [List.mem_append, List.mem_map, List.mem_filter, cteNamesHdr_eq] at hr
   have simple : ∀ m m0 : Match, (m0 ∈ W.findAll .simple n.text ∨ m0 ∈ W.findAll .joinSimple n.text) →
       m0.g1 = m.g1 → (callAtX m0.rest = true → dotOrCallAtR m.rest = true) →
       (dotAt m0.rest = true → dotOrCallAtR m.rest = true) →
       rewriteKeeps W (cteNames W n.text) n.idents m = true →
-      Covered W (applyHeader hdr (refsExtracted W n)) ⟨hdr, resolveV n.idents m.g1⟩ := by
+      Covered (applyHeader hdr (refsExtracted W n)) ⟨hdr, resolveV n.idents m.g1⟩ := by
     intro m m0 hm0 hg hl hd hk
     have hc := hm0.elim (hcap _ _ _) (hcap _ _ _)
     rw [hg] at hc
@@ -293,8 +277,9 @@ theorem rewHdrSlow_covered (W : World) (L : LowerLaws W) (hcap : CapNoDot W) (n 
     · right; left; exact s1
     right; right
     have hns := keeps_not_skipped W _ n.idents m m0 hg e1 hl hd hk
-    obtain ⟨k, hk', h1, h2⟩ := simple_covered W L n m0 hm0 hns (by rw [hg]; exact e1) (by rw [hg]; exact d1)
-    exact ⟨⟨hdr, k.m⟩, applyHeader_mem hdr hh _ k hk' h1, rfl, by rw [h2, hg]⟩
+    have := simple_covered W n m0 hm0 hns (by rw [hg]; exact e1) (by rw [hg]; exact d1)
+    rw [hg] at this
+    exact applyHeader_mem hdr hh _ _ this rfl
   rcases hr with ⟨m, ⟨hm, hk⟩, rfl⟩ | ⟨m, ⟨hm, hk⟩, rfl⟩
   · have hm' : m ∈ W.findAll .simple n.text := hm
     exact simple m m (Or.inl hm') rfl (hst.simple m hm') (fun h => dotAt_imp _ h) hk
@@ -303,92 +288,104 @@ theorem rewHdrSlow_covered (W : World) (L : LowerLaws W) (hcap : CapNoDot W) (n 
 
 /-! ## (C) extraction must match execution -/
 
-/-- **(C), no database header.** For every regex semantics (`findAll`), normaliser, splice and case
-folding: every pair the rewrite turns into a read_parquet path is covered by the permission-checked
-pairs, provided (1) the pre-passes leave the statement alone, (2) captures contain no '.', (3) a later
-pass only finds references the same pattern finds in the original normalised text and the two
-look-aheads agree on them (`StableNoHdr`). The `read_parquet` short-circuit makes the left side empty. -/
-theorem C14_rewrite_subset_checked (W : World) (L : LowerLaws W) (hcap : CapNoDot W) (s : Str)
+/-- **(C), no database header.** For every regex semantics (`findAll`), normaliser, splice and case folding:
+every pair the rewrite turns into a read_parquet path IS a permission-checked pair (or the inert sentinel),
+provided (1) the pre-passes leave the statement alone, (2) captures contain no '.', (3) a later pass only finds
+references the same pattern finds in the original normalised text and the two look-aheads agree on them
+(`StableNoHdr`). The `read_parquet` short-circuit makes the left side empty. -/
+theorem C14_rewrite_subset_checked (W : World) (hcap : CapNoDot W) (s : Str)
     (hpre : W.prepass s = s) (hst : StableNoHdr W (W.normP s)) :
-    ∀ r ∈ refsRewritten W s [], Covered W (refsChecked W s []) r := by
+    ∀ r ∈ refsRewritten W s [], Covered (refsChecked W s []) r := by
   intro r hr
   unfold refsRewritten at hr
   by_cases hsc : shortCircuit W s = true
   · simp [hsc] at hr
   · simp only [hsc, Bool.false_eq_true, if_false, if_true, hpre] at hr
-    have := rewNoHdr_covered W L hcap (W.normP s) hst r hr
+    have := rewNoHdr_covered W hcap (W.normP s) hst r hr
     simpa [refsChecked, applyHeader] using this
 
-/-- **(C), with database header** (slow path): the same inclusion after header substitution, under the
-additional conditions that the single-table fast path is not taken and that the `with ` gate around
-`extractCTENames` agrees with the ungated permission side. -/
-theorem C14_rewrite_subset_checked_hdr (W : World) (L : LowerLaws W) (hcap : CapNoDot W) (s hdr : Str)
-    (hh : hdr ≠ []) (hpre : W.prepass s = s) (hfast : fastPathTaken W s = false)
+/-- the single-table fast path agrees with the permission side: the table it splices is a checked pair.
+(53c9b19 makes the fast path conditional on the extractor's own regex seeing exactly that reference; this is the
+abstract form of that guard, validated on the real code by the monitors and by `C14_fastpath_fixed`.) -/
+def FastAgrees (W : World) (s hdr : Str) : Prop :=
+  fastPathTaken W s = true → ∀ t, fastTable W s = some t → (⟨hdr, t⟩ : Ref) ∈ refsChecked W s hdr
+
+/-- **(C), with database header** — both the slow path and the single-table fast path. The `with ` gate is gone
+(`cteNamesHdr_eq`), so no gate condition is needed any more. -/
+theorem C14_rewrite_subset_checked_hdr (W : World) (hcap : CapNoDot W) (s hdr : Str)
+    (hh : hdr ≠ []) (hpre : W.prepass s = s) (hfast : FastAgrees W s hdr)
     (hst : StableHdr W (W.normP s)) :
-    ∀ r ∈ refsRewritten W s hdr, Covered W (refsChecked W s hdr) r := by
+    ∀ r ∈ refsRewritten W s hdr, Covered (refsChecked W s hdr) r := by
   intro r hr
   unfold refsRewritten at hr
   by_cases hsc : shortCircuit W s = true
   · simp [hsc] at hr
-  · simp only [hsc, Bool.false_eq_true, if_false, hh, rewHdr, hfast, hpre] at hr
-    exact rewHdrSlow_covered W L hcap (W.normP s) hdr hh hst r hr
+  · simp only [hsc, Bool.false_eq_true, if_false, hh, rewHdr] at hr
+    by_cases hf : fastPathTaken W s = true
+    · simp only [hf, if_true] at hr
+      cases ht : fastTable W s with
+      | none => simp [ht] at hr
+      | some t =>
+        simp only [ht, List.mem_singleton] at hr
+        right; right; rw [hr]; exact hfast hf t ht
+    · simp only [hf, Bool.false_eq_true, if_false, hpre] at hr
+      exact rewHdrSlow_covered W hcap (W.normP s) hdr hh hst r hr
 
 /-- the short-circuit itself: text that mentions `read_parquet` is never rewritten -/
 theorem C14_short_circuit (W : World) (s hdr : Str) (h : containsSub shortCircuitLit (W.lower s) = true) :
     refsRewritten W s hdr = [] := by
   simp [refsRewritten, shortCircuit, h]
 
-example : ∃ (W : World) (s : Str), refsRewritten W s [] ≠ [] ∧ W.prepass s = s :=
-  ⟨{ findAll := fun p _ => if p = .simple then [⟨"cpu".toList, [], []⟩] else [], splice := fun _ t _ => t,
-     normP := fun t => ⟨t, []⟩, prepass := id, lower := id }, "from cpu".toList, by decide, rfl⟩
-
-/-! ### where the inclusion breaks (each is an observed bypass or near-miss of the real code) -/
-
 def wOf (fa : Pat → Str → List Match) : World :=
-  { findAll := fa, splice := fun _ t _ => t, normP := fun t => ⟨t, []⟩, prepass := id, lower := lowerAscii }
+  { findAll := fa, splice := fun _ t _ => t, normP := fun t => ⟨t, []⟩, prepass := id, lower := lowerAscii,
+    simpleStarts := fun _ => [] }
 
-/-- look-ahead disagreement: `isFunctionCallAt` skips line breaks, `isDotOrCallAt` only blanks and tabs
-(regenerated blank sets): `FROM cpu<LF>(x)` is a function call for the permission side, a table for the
-rewrite. (Real code: DuckDB's parser rejects every such text the harness tried — near-miss.) -/
+example : ∃ (W : World) (s : Str), refsRewritten W s [] ≠ [] ∧ W.prepass s = s :=
+  ⟨wOf (fun p _ => if p = .simple then [⟨"cpu".toList, [], []⟩] else []), "from cpu".toList, by decide, rfl⟩
+
+/-! ### the one remaining place where the two sides differ (near-miss), and the repaired ones as history -/
+
+/-- look-ahead disagreement (UNCHANGED in the source): `isFunctionCallAt` skips line breaks, `isDotOrCallAt`
+only blanks and tabs (regenerated blank sets): `FROM cpu<LF>(x)` is a function call for the permission side, a
+table for the rewrite. DuckDB's parser rejects every such text the harness tried — near-miss, tagged, not a
+finding; it is why `StableNoHdr` / `StableHdr` carry the look-ahead clause and `inK` has `callAfterNewline`. -/
 theorem C14_lookahead_witness :
     let W := wOf (fun p _ => if p = .simple then [⟨"cpu".toList, [], "\n(x)".toList⟩] else [])
     refsRewritten W "select canary from cpu\n(x)".toList "secret".toList = [⟨"secret".toList, "cpu".toList⟩]
     ∧ refsChecked W "select canary from cpu\n(x)".toList "secret".toList = [] := by
   decide
 
-/-- the `with ` gate (regenerated: `headerCteGated`, literal `with `): with `WITH<LF>cpu AS (…)` the
-permission side excludes the CTE name `cpu`, the header-path rewrite does not even look for CTE names. -/
-theorem C14_header_cte_gate_witness :
-    Arc.Generated.C14.headerCteGated = true ∧
-    let s := "with\ncpu as (select 1 as one) select canary from cpu x".toList
-    let W := wOf (fun p _ => if p = .simple then [⟨"cpu".toList, [], " x".toList⟩]
-                              else if p = .cte then [⟨"cpu".toList, [], []⟩] else [])
-    refsRewritten W s "secret".toList = [⟨"secret".toList, "cpu".toList⟩] ∧ refsChecked W s "secret".toList = [] := by
-  decide
-
-/-- the same on the REAL regex semantics and the real normaliser (string level): a named WINDOW is read
-as a CTE name by the permission side (second alternative of patternCTENames), nothing is checked. -/
-theorem C14_window_alias_witness :
-    let s := "SELECT canary, sum(v) OVER cpu FROM cpu WINDOW w AS (ORDER BY v), cpu AS (ORDER BY v)".toList
-    validate s = .ok ∧ refsChecked strWorld s "secret".toList = [] ∧
-    cteNamesHdr strWorld (strNorm s).text = [] ∧ cteNames strWorld (strNorm s).text = ["cpu".toList] := by
+/-- HISTORY (fixed by 04fa395 + 53c9b19): with the OLD gate (`cteNamesHdrP true`) the header path did not look
+for CTE names unless the text contained `with `; now both sides exclude the same names. -/
+theorem C14_header_cte_gate_fixed :
+    Arc.Generated.C14.headerCteGated = false ∧
+    let s := "WITH\ncpu AS (SELECT 1 AS one) SELECT canary FROM cpu".toList
+    let w := "SELECT canary, sum(v) OVER cpu FROM cpu WINDOW w AS (ORDER BY v), cpu AS (ORDER BY v)".toList
+    cteNamesHdrP true strWorld (strNorm s).text = [] ∧ cteNamesHdr strWorld (strNorm s).text = ["cpu".toList] ∧
+    cteNamesHdrP true strWorld (strNorm w).text = [] ∧ cteNamesHdr strWorld (strNorm w).text = ["cpu".toList] ∧
+    refsRewritten strWorld s "secret".toList = [] ∧ refsRewritten strWorld w "secret".toList = [] := by
   decide +kernel
 
-/-- the single-table fast path uses the substring `from ` (no word boundary): `1from cpu` is a FROM
-clause for DuckDB and for the fast path, not for `\bFROM` — nothing is checked, secret.cpu is read. -/
-theorem C14_fastpath_witness :
-    Arc.Generated.C14.headerFastPath = true ∧
+/-- HISTORY (fixed by 53c9b19): the UNGUARDED fast path (`fastPathTakenP false`) spliced after the substring
+`from ` of `1from cpu`; the guarded one is not taken and the slow path finds nothing to rewrite. A plain
+statement still takes the fast path and its table is the checked pair. -/
+theorem C14_fastpath_fixed :
+    Arc.Generated.C14.fastPathGuarded = true ∧
     let s := "SELECT canary,1from cpu".toList
-    validate s = .ok ∧ fastPathTaken strWorld s = true ∧
-    refsRewritten strWorld s "secret".toList = [⟨"secret".toList, "cpu".toList⟩] ∧
-    refsChecked strWorld s "secret".toList = [] := by
+    fastPathTakenP false strWorld s = true ∧ fastPathTaken strWorld s = false ∧
+    refsRewritten strWorld s "secret".toList = [] ∧
+    let q := "SELECT canary FROM cpu".toList
+    fastPathTaken strWorld q = true ∧ refsRewritten strWorld q "secret".toList = [⟨"secret".toList, "cpu".toList⟩] ∧
+    refsChecked strWorld q "secret".toList = [⟨"secret".toList, "cpu".toList⟩] := by
   decide +kernel
 
-/-- exact equality of measurements fails: the `seen` key folds the letter case of bare references -/
-theorem C14_casefold_witness :
+/-- HISTORY (fixed by 02701ef): with the OLD folding key (`simpleCandP true`) `CPU` and `cpu` shared one `seen`
+key and only the first was checked; now both are. -/
+theorem C14_casefold_fixed :
+    Arc.Generated.C14.seenKeyFoldsCase = false ∧
     let s := "SELECT 1 FROM CPU a JOIN cpu b ON true".toList
-    refsChecked strWorld s "allowed".toList = [⟨"allowed".toList, "CPU".toList⟩] ∧
-    (strFindAll .joinSimple (strNorm s).text).map (·.g1) = ["cpu".toList] := by
+    (simpleCandP true strWorld [] ⟨"CPU".toList, [], []⟩).key = (simpleCandP true strWorld [] ⟨"cpu".toList, [], []⟩).key ∧
+    refsChecked strWorld s "allowed".toList = [⟨"allowed".toList, "CPU".toList⟩, ⟨"allowed".toList, "cpu".toList⟩] := by
   decide +kernel
 
 /-! ## (B) what acceptance guarantees over DuckDB's token list -/
@@ -425,12 +422,14 @@ theorem C14_denylist_complete (pre post : List Tok) (w : Str) (hw : lowerAscii w
   have h := hasDeniedCall_of_call pre post w (List.contains_iff_mem.mpr hw)
   simp [acceptedTok, h.1, h.2]
 
-/-- the regenerated denylist contains the reader the rewrite itself emits and its documented alias, and
-the frame of the regex is the one the token-level reading assumes -/
+/-- the regenerated denylist contains the reader the rewrite itself emits, its documented alias, the functions
+added by d9537de, and the frame of the regex is the one the token-level reading assumes (any run of RE2 blanks
+or non-ASCII bytes between the name and the parenthesis, c63798f) -/
 theorem C14_denylist_tied :
     "read_parquet".toList ∈ denylist ∧ "parquet_scan".toList ∈ denylist ∧ "glob".toList ∈ denylist ∧
+    "query".toList ∈ denylist ∧ "query_table".toList ∈ denylist ∧ "parquet_full_metadata".toList ∈ denylist ∧
     Arc.Generated.C14.denylistPrefix = "(?i)\\b(" ∧ Arc.Generated.C14.denylistSep = "|" ∧
-    Arc.Generated.C14.denylistSuffix = ")\\s*\\(" := by
+    Arc.Generated.C14.denylistSuffix = ")(?:\\s|[^\\x00-\\x7F])*\\(" := by
   decide
 
 /-- strings / non-name quoted identifiers directly after FROM, JOIN or a cross-join comma are rejected -/
@@ -475,94 +474,89 @@ theorem C14_step_order :
        before "normalizeSQLForShow" "checkQueryPermissions" l) = true) := by
   decide
 
-/-- GET /api/v1/query/:measurement composes `SELECT * FROM db.m WHERE <where> …` from the caller's
-`where` text and rewrites + executes it WITHOUT `checkQueryPermissions` (regenerated call list): a
-subquery in `where` reads any database (harness: canary-read:measurement-where-subquery). -/
-theorem C14_measurement_endpoint_witness :
-    "checkQueryPermissions" ∉ Arc.Generated.C14.steps_queryMeasurement ∧
-    "getTransformedSQL" ∈ Arc.Generated.C14.steps_queryMeasurement ∧
-    "checkMeasurementPermission" ∈ Arc.Generated.C14.steps_queryMeasurement := by
+/-- GET /api/v1/query/:measurement composes `SELECT * FROM db.m WHERE <where> …` from the caller's `where`
+text; since fe9cde7 the composed statement goes through `checkQueryPermissions` before it is rewritten
+(HISTORY: the call was missing, a subquery in `where` read any database). -/
+theorem C14_measurement_endpoint_checked :
+    before "checkQueryPermissions" "getTransformedSQL" Arc.Generated.C14.steps_queryMeasurement = true ∧
+    before "ValidateSQLRequest" "checkQueryPermissions" Arc.Generated.C14.steps_queryMeasurement = true ∧
+    before "checkMeasurementPermission" "getTransformedSQL" Arc.Generated.C14.steps_queryMeasurement = true := by
   decide
 
-/-! ## lexical witnesses outside K (string level: what the REAL validator / extractor compute) -/
+/-- **(R)** every round-2 repair is in place in the CURRENT source (regenerated structural facts): case-exact
+`seen` key, guarded fast path, comment-skipping masker, single-pass unmask, fresh FROM-mask prefix, non-ASCII
+dollar tags, mask-first denylist normalisation, ungated CTE names in the header path, no backslash escape in
+plain literals, skip-prefix test on the resolved name, one-byte-separated cache key. -/
+theorem C14_repairs_in_place :
+    Arc.Generated.C14.seenKeyFoldsCase = false ∧ Arc.Generated.C14.fastPathGuarded = true ∧
+    Arc.Generated.C14.maskerSkipsComments = true ∧ Arc.Generated.C14.unmaskSinglePass = true ∧
+    Arc.Generated.C14.fromMaskPrefixFresh = true ∧ Arc.Generated.C14.dollarTagNonAscii = true ∧
+    Arc.Generated.C14.denylistMasksFirst = true ∧ Arc.Generated.C14.headerCteGated = false ∧
+    Arc.Generated.C14.maskBackslashEscapes = false ∧
+    Arc.Generated.C14.skipTestOnResolvedName = [true, true, true, true, true, true] ∧
+    Arc.Generated.C14.cacheKeySepByte = 0 := by
+  decide
 
-/-- backslash before the closing quote of a plain literal: the masker continues the literal (regenerated
-fact `maskBackslashEscapes`), DuckDB ends it. The validator sees no call, the extractor no reference;
-DuckDB's tokens (second component, as DuckDB lexes the same bytes) contain `read_parquet (`. -/
-theorem C14_backslash_quote_witness :
-    Arc.Generated.C14.maskBackslashEscapes = true ∧
-    let s := "SELECT 'a\\', canary FROM read_parquet('/r/secret/cpu/x.parquet') --'".toList
-    inK s [] = false ∧ validate s = .ok ∧ refsChecked strWorld s [] = [] ∧ shortCircuit strWorld s = true ∧
-    acceptedTok [.word "SELECT".toList, .str "a\\".toList, .comma, .word "canary".toList, .word "FROM".toList,
-                 .word "read_parquet".toList, .lparen, .str "/r/secret/cpu/x.parquet".toList, .rparen] = false := by
+/-! ## the former lexical bypasses, evaluated on the byte-level transcription of the CURRENT code
+
+(The transcription is diffed against the real code on every generated statement; HISTORY: each of these strings
+was accepted with an empty checked set before the repairs named in the doc comments.) -/
+
+/-- 8f4fe38 (backslash is an escape only inside E'' strings) and 64dff5c (comments are skipped by the masker):
+the denylisted call is now visible to the validator in all five spellings -/
+theorem C14_lexical_bypasses_fixed :
+    ["SELECT 'a\\', canary FROM read_parquet('/r/secret/cpu/x.parquet') --'",
+     "SELECT E'a\\\\', canary FROM read_parquet('/r/secret/cpu/x.parquet') --'",
+     "SELECT 1 -- '\n, canary FROM read_parquet('/r/secret/cpu/x.parquet') -- '",
+     "SELECT 1 /* ' */, canary FROM read_parquet('/r/secret/cpu/x.parquet') /* ' */",
+     "SELECT 1 AS \"/*\", canary FROM read_parquet('/r/secret/cpu/x.parquet') -- */",
+     "SELECT 1 AS \"$$\", canary FROM \"READ_CSV_AUTO\"($$/r/secret/cpu/x.parquet$$) -- $$",
+     "SELECT canary FROM read_parquet\u00a0('/r/secret/cpu/x.parquet')"].all
+      (fun s => validate s.toList == .io && inK s.toList []) = true := by
   decide +kernel
 
-/-- a quote inside a comment: masking runs before comment stripping -/
-theorem C14_quote_in_comment_witness :
-    let s := "SELECT 1 -- '\n, canary FROM read_parquet('/r/secret/cpu/x.parquet') -- '".toList
-    let b := "SELECT 1 /* ' */, canary FROM read_parquet('/r/secret/cpu/x.parquet') /* ' */".toList
-    inK s [] = false ∧ validate s = .ok ∧ refsChecked strWorld s [] = [] ∧
-    inK b [] = false ∧ validate b = .ok ∧ refsChecked strWorld b [] = [] := by
+/-- 942e7b2 / f486253: `'__STR_1__'` and `__FROM_MASK_0__` in user text are still ACCEPTED by the validator (they
+are ordinary text); what changed is the unmask step, which is not part of this model: it is single-pass
+(`unmaskSinglePass`) and uses a prefix that does not occur in the text (`fromMaskPrefixFresh`) — see
+`C14_repairs_in_place`; the monitors `canary-read:placeholder-lookalike` / `:from-mask-lookalike` stay armed. -/
+theorem C14_placeholder_text_is_plain_text :
+    validate "SELECT '__STR_1__' , ' , * FROM parquet_scan($$/r/secret/cpu/x.parquet$$) --'".toList = .ok ∧
+    (strNorm "SELECT '__STR_1__' , ' , * FROM parquet_scan($$/r/secret/cpu/x.parquet$$) --'".toList).text
+      = "SELECT __STR_0__ , __STR_1__".toList := by
   decide +kernel
 
-/-- an escaped backslash before the closing quote of an E'' literal -/
-theorem C14_estring_witness :
-    let s := "SELECT E'a\\\\', canary FROM read_parquet('/r/secret/cpu/x.parquet') --'".toList
-    inK s [] = false ∧ validate s = .ok ∧ refsChecked strWorld s [] = [] := by
-  decide +kernel
-
-/-- a comment marker inside a quoted identifier: `ioDenylistNormalise` strips the identifier quotes, the
-marker turns live and the comment stripper removes the call the denylist should have seen -/
-theorem C14_marker_in_ident_witness :
-    let s := "SELECT 1 AS \"/*\", canary FROM read_parquet('/r/secret/cpu/x.parquet') -- */".toList
-    inK s [] = false ∧ validate s = .ok ∧ refsChecked strWorld s [] = [] := by
-  decide +kernel
-
-/-- placeholder look-alike: the validator / extractor see two inert literals; `UnmaskStringLiterals`
-(first-occurrence replace, not modelled) then splices literal #1 into the TEXT of literal #0 -/
-theorem C14_placeholder_witness :
-    let s := "SELECT '__STR_1__' , ' , * FROM parquet_scan($$/r/secret/cpu/x.parquet$$) --'".toList
-    inK s [] = false ∧ validate s = .ok ∧ refsChecked strWorld s [] = [] ∧ shortCircuit strWorld s = false ∧
-    (strNorm s).text = "SELECT __STR_0__ , __STR_1__".toList := by
-  decide +kernel
-
-/-- and K is not empty: ordinary statements are in K, accepted, and their references are checked -/
+/-- and ordinary statements are in K, accepted, and their references are checked -/
 example :
     let s := "SELECT canary FROM secret.cpu a JOIN mem b ON true".toList
     inK s [] = true ∧ validate s = .ok ∧
     refsChecked strWorld s [] = [⟨"secret".toList, "cpu".toList⟩, ⟨"default".toList, "mem".toList⟩] := by
   decide +kernel
 
-/-- gaps of the regenerated denylist (breaks by design once the names are added): DuckDB's `query('<sql>')`
-runs SQL handed over inside a string literal, `parquet_full_metadata` reads parquet footers + statistics -/
-theorem C14_denylist_gap_witness :
-    "query".toList ∉ denylist ∧ "query_table".toList ∉ denylist ∧ "parquet_full_metadata".toList ∉ denylist ∧
+/-- d9537de: `query('<sql>')`, `query_table` and `parquet_full_metadata` are denied (HISTORY: they were
+missing; `query()` runs SQL handed over inside a string literal) -/
+theorem C14_denylist_gap_closed :
     acceptedTok [.word "select".toList, .other '*', .word "from".toList, .word "query".toList, .lparen,
-                 .str "SELECT canary FROM parquet_scan('/r/secret/cpu/x.parquet')".toList, .rparen] = true ∧
+                 .str "SELECT canary FROM parquet_scan('/r/secret/cpu/x.parquet')".toList, .rparen] = false ∧
     acceptedTok [.word "select".toList, .other '*', .word "from".toList, .word "parquet_full_metadata".toList, .lparen,
-                 .str "/r/secret/cpu/x.parquet".toList, .rparen] = true := by
-  decide
-
-/-- a blank DuckDB accepts but RE2's `\\s` does not (U+00A0) between the reader name and `(` -/
-theorem C14_nbsp_witness :
-    let s := "SELECT canary FROM read_parquet\u00a0('/r/secret/cpu/x.parquet')".toList
-    inK s [] = false ∧ validate s = .ok ∧ refsChecked strWorld s [] = [] := by
+                 .str "/r/secret/cpu/x.parquet".toList, .rparen] = false ∧
+    validate "SELECT * FROM query('SELECT canary FROM parquet_scan(''/r/x.parquet'')')".toList = .io := by
   decide +kernel
 
-/-- a dollar-quote tag with a non-ASCII letter: a dollar-quoted string for DuckDB, not for `dollarQuoteTag`
-(ASCII letters only) - the replacement scan stays unmasked and no scanner recognises it -/
-theorem C14_dollar_nonascii_tag_witness :
-    let s := "SELECT canary FROM $é$/r/secret/cpu/2024/01/01/00/part0.parquet$é$".toList
-    inK s [] = false ∧ validate s = .ok ∧ refsChecked strWorld s [] = [] ∧
-    (maskLits s).2.length = 0 := by
-  decide +kernel
-
-/-- while every ASCII tag (letters, digits after the first byte, underscore) IS masked as one string -/
+/-- abf5a7e: every dollar-quote tag DuckDB accepts — ASCII letters, digits after the first byte, underscore AND
+bytes ≥ 0x80 — is masked as one string, so a replacement scan in table position is rejected -/
 theorem C14_dollar_tag_masked :
-    ["", "t", "t1", "_9", "T0", "a2b", "a_1"].all (fun tg =>
+    ["", "t", "t1", "_9", "T0", "a2b", "a_1", "é", "a1é"].all (fun tg =>
       validate ("SELECT canary FROM $".toList ++ tg.toList ++ "$/r/secret/cpu/f.parquet$".toList ++ tg.toList ++ "$".toList)
         == .strtab) = true := by
   decide +kernel
+
+/-- in all four simple-table rewrite handlers and both extractor loops the skip-prefix test
+(`shouldSkipTableConversion`) runs on the RESOLVED name, after the quoted-identifier placeholder was
+resolved (regenerated call order + argument). This is what `rewriteKeeps` / `extractSkips` model; testing the
+raw `__IDENT_n__` token on one side only makes the rewriter splice `"pg_x"` that the extractor skipped. -/
+theorem C14_skip_prefix_on_resolved_name :
+    Arc.Generated.C14.skipTestOnResolvedName = [true, true, true, true, true, true] := by
+  decide
 
 /-- PRE-FIX definition (before /repo commit 12df811), kept only to state what was wrong: the key was
 `sql` without a header and `headerDB + ":" + sql` with one -/
@@ -625,23 +619,6 @@ theorem C14_cache_key_injective (h1 h2 s1 s2 : Str) (v1 : headerOK h1 = true) (v
 
 example : cacheKey [] ("secret:SELECT 1".toList) ≠ cacheKey "secret".toList "SELECT 1".toList := by decide
 
-/-- in all four simple-table rewrite handlers and both extractor loops the skip-prefix test
-(`shouldSkipTableConversion`) runs on the RESOLVED name, after the quoted-identifier placeholder was
-resolved (regenerated call order + argument). This is what `rewriteKeeps` / `extractSkips` model; testing the
-raw `__IDENT_n__` token on one side only makes the rewriter splice `"pg_x"` that the extractor skipped. -/
-theorem C14_skip_prefix_on_resolved_name :
-    Arc.Generated.C14.skipTestOnResolvedName = [true, true, true, true, true, true] := by
-  decide
-
-/-- user text shaped like the FROM-mask placeholder next to an EXTRACT call: the validator (which never
-runs `MaskFromKeywordsInFunctionBodies`) sees an alias and an inert literal; the transform's
-`UnmaskFromKeywordsInFunctionBodies` (strings.NewReplacer over EVERY occurrence, not modelled) then turns the
-user's `__FROM_MASK_0__` into `FROM` in front of the string: a replacement scan -/
-theorem C14_from_mask_lookalike_witness :
-    let s := "SELECT EXTRACT(year FROM DATE '2024-01-01') AS y, canary __FROM_MASK_0__ '/r/secret/cpu/f.parquet'".toList
-    inK s [] = false ∧ validate s = .ok ∧ hasPlaceholderLookalike (s.length + 1) s = true ∧ shortCircuit strWorld s = false := by
-  decide +kernel
-
 /-! ## composition -/
 
 /-- **C14_partial** (the property on the decidable lexical class `inK`, compositional).
@@ -652,13 +629,15 @@ by read_parquet calls in the EXECUTED text; `filesRead` = directories of the sto
  * `hA` — lexical agreement ASSUMPTION on K (C15's subject): a read_parquet call in the executed text was
           spliced by the rewrite or is a call in the user's own token list;
  * `hC` — the conclusion of (C) (`C14_rewrite_subset_checked[_hdr]`, whose side conditions hold on K).
-Then every file read lies in a checked (database, measurement) directory (up to `Covered`). -/
+Then every file read lies in a checked (database, measurement) directory (`Covered` = membership, or the inert
+sentinel directory). Since the round-2 repairs `inK` excludes only nested / unterminated block comments, the
+look-ahead near-miss and the pre-pass trigger words. -/
 theorem C14_partial (W : World) (s hdr : Str) (ts : List Tok) (named filesRead : List Ref)
     (hK : inK s hdr = true) (hacc : acceptedTok ts = true)
     (hD : acceptedTok ts = true → ∀ f ∈ filesRead, f ∈ named)
     (hA : inK s hdr = true → ∀ f ∈ named, f ∈ refsRewritten W s hdr ∨ hasDeniedCall ts = true)
-    (hC : ∀ r ∈ refsRewritten W s hdr, Covered W (refsChecked W s hdr) r) :
-    ∀ f ∈ filesRead, Covered W (refsChecked W s hdr) f := by
+    (hC : ∀ r ∈ refsRewritten W s hdr, Covered (refsChecked W s hdr) r) :
+    ∀ f ∈ filesRead, Covered (refsChecked W s hdr) f := by
   intro f hf
   have hden := (C14_validated ts hacc).2.1
   rcases hA hK f (hD hacc f hf) with h | h
